@@ -5,12 +5,16 @@ import json, os, subprocess, sys
 HOME = os.path.dirname(os.path.dirname(os.path.abspath(__file__)))
 mpath = os.path.join(HOME, "seeded", "MATRIX.json")
 matrix = json.load(open(mpath)) if os.path.exists(mpath) else {}
-ids = [a.upper() for a in sys.argv[1:]] or sorted(d for d in os.listdir(os.path.join(HOME, "seeded")) if d.startswith("C"))
+only = [a for a in sys.argv[1:] if a.startswith("--only=")]
+args = [a for a in sys.argv[1:] if not a.startswith("--")]
+ids = [a.upper() for a in args] or sorted(d for d in os.listdir(os.path.join(HOME, "seeded")) if d.startswith("C"))
 jobs = []
 for pid in ids:
-    for sub, tag in (("", pid), ("round2", pid + ".r2")):
+    for sub, tag in (("", pid), ("round2", pid + ".r2"), ("round3", pid + ".r3")):
         jobs.append((pid, os.path.join(HOME, "seeded", pid, sub, "patch.diff"), tag))
 for pid, patch, tag in jobs:
+    if only and not tag.endswith(only[0][7:]):
+        continue
     if not os.path.exists(patch) or not os.path.exists(os.path.join(HOME, "checks", pid.lower() + ".py")):
         continue
     r = subprocess.run([os.path.join(HOME, "tools", "mut.py"), pid, "--patch", patch], stdout=subprocess.PIPE,
@@ -18,7 +22,9 @@ for pid, patch, tag in jobs:
     out = r.stdout
     verdict = "KILLED" if "KILLED" in out else ("SURVIVED" if "SURVIVED" in out else ("PATCH-FAILED" if "FAILED" in out or "rej" in out else "ERROR"))
     fails = [l.strip() for l in out.splitlines() if l.strip().startswith("failure ")][:2]
+    matrix = json.load(open(mpath)) if os.path.exists(mpath) else {}   # re-read: importers may run side by side
     matrix[tag] = {"verdict": verdict, "tier": "quick", "failures": fails}
     print(tag, verdict, fails[:1])
     sys.stdout.flush()
-    json.dump(matrix, open(mpath, "w"), indent=1, sort_keys=True)
+    json.dump(matrix, open(mpath + ".tmp%d" % os.getpid(), "w"), indent=1, sort_keys=True)
+    os.replace(mpath + ".tmp%d" % os.getpid(), mpath)
